@@ -392,6 +392,89 @@ def _check_once(case):
   return out
 
 
+
+# ---------------------------------------------------------------------------
+# several clients at once (different studies): every deployment must serve
+# them all - the outcome (N trials per study, no error) does not depend on the
+# schedule, so real threads are a sound driver here
+# ---------------------------------------------------------------------------
+def parallel_strategy():
+  from hypothesis import strategies as st
+  return st.fixed_dictionaries({
+      'studies': st.integers(3, 4), 'rounds': st.integers(6, 12),
+      'algorithm': st.sampled_from(['GRID_SEARCH', 'RANDOM_SEARCH',
+                                    'QUASI_RANDOM_SEARCH'])})
+
+
+def _parallel_once(case, dep, backend, tag):
+  import threading
+  from vizier._src.service import clients
+  from vizier.service import pyvizier as vz
+  _select(dep, backend)
+  n = case['studies']
+  errors = [[] for _ in range(n)]
+  done = [0] * n
+  barrier = threading.Barrier(n)
+
+  def cfg():
+    sc = vz.StudyConfig(algorithm=case['algorithm'])
+    sc.search_space.root.add_float_param('x', 0.0, 1.0)
+    sc.search_space.root.add_int_param('i', 0, 9)
+    sc.metric_information.append(vz.MetricInformation(
+        'm', goal=vz.ObjectiveMetricGoal.MAXIMIZE))
+    return sc
+  studies = [clients.Study.from_study_config(
+      cfg(), owner='%s-%d' % (tag, k), study_id='s') for k in range(n)]
+
+  def worker(k):
+    try:
+      barrier.wait(timeout=60)
+      for _ in range(case['rounds']):
+        got = studies[k].suggest(count=1, client_id='w')
+        if len(got) != 1:
+          errors[k].append('suggest returned %d trials' % len(got))
+          continue
+        got[0].complete(vz.Measurement({'m': 1.0}))
+        done[k] += 1
+    except Exception as e:  # pylint: disable=broad-except
+      errors[k].append('%s: %s' % (_exc_class(e), str(e)[:200]))
+  threads = [threading.Thread(target=worker, args=(k,)) for k in range(n)]
+  for t in threads:
+    t.start()
+  for t in threads:
+    t.join(timeout=300)
+  hung = [k for k, t in enumerate(threads) if t.is_alive()]
+  return errors, done, hung
+
+
+def check_parallel(case):
+  from harness import svc  # noqa: F401
+  import os
+  out = core.Out()
+  _setup()
+  _COUNTER[0] += 1
+  for dep in ('L', 'G', 'D'):
+    for backend in ('ram', 'sql'):
+      for attempt in (0, 1):
+        tag = 'q%d-%d-%s%s%d' % (os.getpid(), _COUNTER[0], dep, backend,
+                                 attempt)
+        errors, done, hung = _parallel_once(case, dep, backend, tag)
+        bad = any(errors) or hung or any(d != case['rounds'] for d in done)
+        if not bad:
+          break
+      else:
+        what = 'hung' if hung else 'error'
+        out.violate('parallel_clients/%s/%s_%s' % (what, dep, backend),
+                    '%d clients x %d rounds on %s/%s (twice): completed %r '
+                    'errors %r hung %r' % (case['studies'], case['rounds'],
+                                           dep, backend, done, errors, hung))
+      if attempt == 1 and not bad:
+        out.cls('transient_failure_not_reproduced')
+  out.cls('parallel_' + case['algorithm'])
+  out.nontrivial = True
+  return out
+
+
 def families(tier):
   return [
       core.Family('programs', check, strategy=strategy,
@@ -402,4 +485,9 @@ def families(tier):
                                     'has_set_state', 'has_add_trial',
                                     'config_big', 'config_unregistered',
                                     'suggest_returned_empty')),
+      core.Family('parallel_clients', check_parallel,
+                  strategy=parallel_strategy,
+                  budget={'quick': 8, 'thorough': 64},
+                  shards={'quick': 4, 'thorough': 16},
+                  max_shrink_s={'quick': 0, 'thorough': 60}),
   ]
